@@ -1,6 +1,7 @@
 #!/bin/bash
 # seed_all.sh [ids...]: run every kept seeded change through the checks (see tools/seed_run.py)
 cd "$(dirname "$0")/.."
+FAST=""; if [ "$1" = "--fast" ]; then FAST="--fast"; shift; fi
 ids="$@"
 [ -z "$ids" ] && ids=$(ls seeded)
-for s in $ids; do VERIF_SEED_WORK=$PWD/.work-seed python3 tools/seed_run.py $s; done
+for s in $ids; do VERIF_SEED_WORK=$PWD/.work-seed python3 tools/seed_run.py $FAST $s; done
